@@ -48,7 +48,7 @@ CLAIMED = {
    note="Interleaving granularity is the API step; thread-level races inside one call are runtime behaviour outside the model. ID-token signing failure path not exercised.",
    technique="Lean 4 proof: history invariant by induction + decision-logic theorems; exhaustive schedule enumeration for the correspondence", ref="6 C02"),
  "C05": dict(
-   text="deny_unknown_scopes (provider preference or the client's own setting) is part of the model's authorization step: deny_unknown_refuses (a request naming a scope outside what the client may use creates nothing) and deny_unknown_grants_exactly. Lean theorems on the provider core model. History invariant, by induction over ALL API-step histories (authorize, code redemption with "
+   text="The resource-indicator configuration of the OAuth2 token endpoint is exercised by the oracle only (F-C05-a known: there the response states the policy-filtered request scope). deny_unknown_scopes (provider preference or the client's own setting) is part of the model's authorization step: deny_unknown_refuses (a request naming a scope outside what the client may use creates nothing) and deny_unknown_grants_exactly. Lean theorems on the provider core model. History invariant, by induction over ALL API-step histories (authorize, code redemption with "
         "parse/process interleaved, refresh with or without explicit scope, token exchange by the owning or another client, revocations, logouts, "
         "removals, clock): every token the provider holds, however long its minting chain, carries a scope within the scope recorded for its own "
         "grant (scope_bounded), an exchange delivers only within the subject token's scope and within what was asked (exchange_never_widens, "
@@ -114,7 +114,7 @@ CLAIMED = {
         "request_param and bearer_body methods not modelled; 'refused yields no tokens' is exercised through C02/C03 harnesses rather than here.",
    technique="Lean 4 proof (decision logic + monotone replay-cache invariant over request histories) + endpoint correspondence with concrete credentials", ref="6 C01"),
  "C16": dict(
-   text="Lean theorems: by value — if a request object takes effect it verified under the identified client's keys, used an algorithm permitted for "
+   text="Encrypted request objects are part of the cases (only encrypted = an unsigned object, F-C16-i fixed; encrypted around a signed one): to the policy the encryption layer is transparent. PAR histories move between two live provider instances by export / import. Lean theorems: by value — if a request object takes effect it verified under the identified client's keys, used an algorithm permitted for "
         "that client (registered value, else the provider's list), names exactly that client, and ALL effective parameters are the object's; "
         "unsigned objects are refused when a signing algorithm is registered; wrong key / non-permitted algorithm / other client refused; by reference (fetched from the request_uri) — by_reference_sound: what takes effect was signed by the identified client with a permitted algorithm, names no other issuer, and lies over the outer parameters (overlay lemmas), with the proved witness by_reference_other_client_takes_effect for the clause the code does not enforce there (known finding F-C16-h). PAR — "
         "par_one_shot: in every history of pushes, redemptions (any client, any URN, any number of replays) and clock advances each URN is "
@@ -215,7 +215,7 @@ CLAIMED = {
    note="Validity of the ID tokens themselves is C08; logout bookkeeping (sid) and the composite RPHandler.finalize are checked by the oracle only.",
    technique="Lean 4 proof (invariant by induction over operation histories of a state-store model) + history correspondence with per-step store dump", ref="6 C09"),
  "C12": dict(
-   text="Lean theorems over the whole (finite) cell type of the configuration product — 301 056 cells, all seven response types: every cell whose response placement is "
+   text="Cells also run with the provider's state exported / imported (JSON) between the legs of a flow (F-C12-k fixed) and with a grant shorter-lived than its access tokens. Lean theorems over the whole (finite) cell type of the configuration product — 301 056 cells, all seven response types: every cell whose response placement is "
         "defined completes whatever the other nine dimensions are (supported_cells_complete); a flow is refused exactly for the two "
         "response_type x response_mode conflicts (refused_iff), one required by the specification, one not (code_fragment_refused, a known "
         "finding); what a completed flow consists of — calls in order, artefacts, ID-token encryption, refresh token only with offline access "
